@@ -1,8 +1,11 @@
 #!/usr/bin/env python3
-"""usage: tools/recheck_seeded.py [--tier quick] [--note TEXT] <ID>/<name> ...   (or  all  /  missed)
+"""usage: tools/recheck_seeded.py [--tier quick] [--note TEXT] [--seeds 1,2] [--lanes N] <ID>/<name> ...   (or  all  /  missed)
 Re-run the property's check against /repo with a stored seeded change applied (always reverted), and record the outcome
-in /verif/seeded/<ID>/<name>/meta.json.  The first recorded outcome is kept as check_result_first when it differs."""
-import json, os, subprocess, sys, glob, re
+in /verif/seeded/<ID>/<name>/meta.json.  The first recorded outcome is kept as check_result_first when it differs.
+--lanes N (regression runs over all stored changes): N scratch worktrees of /repo HEAD under /tmp, each lane takes whole
+properties (evidence and replay files are per property), the patch is applied there and the check runs with VERIF_REPO
+pointing at the lane; /repo itself is not touched.  The worktrees are removed at the end."""
+import json, os, subprocess, sys, glob, re, threading
 
 VERIF = os.path.dirname(os.path.dirname(os.path.abspath(__file__)))
 
@@ -13,12 +16,14 @@ def sh(*a, **k):
 
 def main():
     args = sys.argv[1:]
-    tier, note, seeds = "quick", None, None
+    tier, note, seeds, lanes = "quick", None, None, 0
     while args and args[0].startswith("--"):
         if args[0] == "--tier":
             tier = args[1]
         elif args[0] == "--note":
             note = args[1]
+        elif args[0] == "--lanes":
+            lanes = int(args[1])
         elif args[0] == "--seeds":        # e.g. --seeds 0,1,2 : caught only if every seed catches it (recorded as seeds_caught)
             seeds = [int(x) for x in args[1].split(",")]
         args = args[2:]
@@ -36,6 +41,8 @@ def main():
     if sh("git", "-C", "/repo", "diff", "--quiet").returncode != 0:
         print("/repo is dirty")
         return 2
+    if lanes:
+        return run_lanes(targets, tier, note, seeds, lanes)
     rc_all = 0
     for t in targets:
         d = os.path.join(VERIF, "seeded", t)
@@ -73,6 +80,66 @@ def main():
         if r.returncode != 1:
             rc_all = rc_all or 1
     return rc_all
+
+
+def run_lanes(targets, tier, note, seeds, lanes):
+    byprop = {}
+    for t in targets:
+        byprop.setdefault(t.split("/")[0], []).append(t)
+    props = sorted(byprop, key=lambda k: -len(byprop[k]))
+    lock = threading.Lock()
+    rc = [0]
+
+    def lane(k):
+        wt = "/tmp/rc-lane-%d-%d" % (os.getpid(), k)
+        if sh("git", "-C", "/repo", "worktree", "add", "-q", "--detach", wt, "HEAD").returncode != 0:
+            rc[0] = 2
+            return
+        try:
+            while True:
+                with lock:
+                    if not props:
+                        return
+                    pid = props.pop(0)
+                for t in byprop[pid]:
+                    d = os.path.join(VERIF, "seeded", t)
+                    meta = json.load(open(os.path.join(d, "meta.json")))
+                    r = sh("git", "-C", wt, "apply", os.path.join(d, "patch.diff"))
+                    if r.returncode != 0:
+                        print("%s: patch does not apply: %s" % (t, r.stdout.strip()[:200]), flush=True)
+                        rc[0] = 2
+                        continue
+                    per_seed = {}
+                    try:
+                        for sd in (seeds or [0]):
+                            r = sh(os.path.join(VERIF, "check"), pid, tier, cwd=VERIF, env=dict(os.environ, VERIF_SEED=str(sd), VERIF_REPO=wt))
+                            per_seed[sd] = r.returncode
+                            if r.returncode != 1:
+                                break
+                    finally:
+                        sh("git", "-C", wt, "checkout", "--", ".")
+                    mech = [re.sub(r"\s+\(x\d+\)\s*$", "", l.split("mechanism: ", 1)[1]) for l in r.stdout.splitlines() if l.startswith("  mechanism: ")][:4]
+                    new = {"command": "./check %s %s with VERIF_REPO = a scratch worktree of /repo HEAD carrying the patch (regression run over all stored changes)" % (pid, tier),
+                           "exit": r.returncode, "caught": r.returncode == 1, "mechanisms": ";".join(mech), "seeds": {str(a): b for a, b in per_seed.items()}}
+                    old = meta.get("check_result")
+                    if old and old.get("caught") != new["caught"] and "check_result_first" not in meta:
+                        meta["check_result_first"] = old
+                    meta["check_result"] = new
+                    if note:
+                        meta["strengthened"] = note
+                    json.dump(meta, open(os.path.join(d, "meta.json"), "w"), indent=1)
+                    print("%s: exit %d %s %s" % (t, r.returncode, per_seed, "; ".join(mech)[:160]), flush=True)
+                    if r.returncode != 1:
+                        rc[0] = rc[0] or 1
+        finally:
+            sh("git", "-C", "/repo", "worktree", "remove", "--force", wt)
+    ths = [threading.Thread(target=lane, args=(k,)) for k in range(lanes)]
+    for th in ths:
+        th.start()
+    for th in ths:
+        th.join()
+    sh("git", "-C", "/repo", "worktree", "prune")
+    return rc[0]
 
 
 if __name__ == "__main__":
